@@ -654,9 +654,12 @@ def gen_collision_case(rng):
     vpat = rng.choice(["v%s", "v%s", "v%s", "r.%s", "%s.d", ".%s"])
     setup_world(s, base_cfg(deb=0, vpat=vpat))
     ver = vpat.replace("%s", str(CLOCK0))
-    f = rng.choice([WATCH + "/inc/a.txt", WATCH + "/inc/b", WATCH + "/inc/x.tar.gz", WATCH + "/proj/m.c"])
+    # (also a file six directories down whose names are 50 characters each: every component is short, the whole store
+    # path is not)
+    DEEP = WATCH + "/inc/" + "/".join(c * 50 for c in "pqrstu") + "/deep.txt"
+    f = rng.choice([WATCH + "/inc/a.txt", WATCH + "/inc/b", WATCH + "/inc/x.tar.gz", WATCH + "/proj/m.c", DEEP])
     rel = f[len(WATCH) + 1:]
-    ext = {"a.txt": ".txt", "b": "", "x.tar.gz": ".tar.gz", "m.c": ".c"}[rel.rsplit("/", 1)[1]]
+    ext = {"a.txt": ".txt", "b": "", "x.tar.gz": ".tar.gz", "m.c": ".c", "deep.txt": ".txt"}[rel.rsplit("/", 1)[1]]
     # pre-seed the store with names the daemon will want
     if rng.random() < 0.08:
         # a long run of taken names: the first free one is far away (-64, -65, -70, -130)
@@ -957,6 +960,16 @@ def gen_journal_case(rng):
             f = rng.choice(files)
             s.put(f, "data%d" % rng.randint(0, 99))
             s.write(rng.choice(JPIDS), f)
+            if rng.random() < 0.12 and f.startswith(WATCH + "/inc/"):
+                # the file goes away together with its directory, and a regular file takes the directory's name: for
+                # whoever opens it now it does not exist (ENOTDIR): 'deleted', not 'forbidden'
+                s.rm(f)
+                s.add("rmdir %s" % hexs(WATCH + "/inc"))
+                s.put(WATCH + "/inc", "now a file")
+                s.tick(2)
+                s.timeout()
+                s.dump()
+                s.rm(WATCH + "/inc")
         elif r < 0.7:
             s.tick(1)
         elif r < 0.78:
